@@ -68,7 +68,7 @@ def tlc_ok(text):
 
 def tlc_violation(text):
     """Returns the violated invariant/property name, or None."""
-    m = re.search(r"Error: Invariant (\w+) is violated", text)
+    m = re.search(r"Error: Invariant (\w+) is violated", text) or re.search(r"Error: The invariant of (\w+) is equal to FALSE", text)
     if m:
         return m.group(1)
     m = re.search(r"Error: (Temporal properties were violated|Deadlock reached|Action property \w+ is violated)", text)
